@@ -1698,7 +1698,8 @@ def _unique_internal(ar, indices, counts, return_inverse=False):
         r["inverse"] = np.arange(len(r), dtype=np.intp)
     if return_index or return_counts:
         for i, v in enumerate(r["values"]):
-            m = ar == v
+            # NaNs are collapsed into one value by np.unique
+            m = (ar == v) | ((ar != ar) & (v != v))
             if return_index:
                 indices[m].min(keepdims=True, out=r["indices"][i : i + 1])
             if return_counts:
@@ -1864,7 +1865,9 @@ def unique(ar, return_index=False, return_inverse=False, return_counts=False):
         # index in axis `1` (the one of unknown length). Reduce axis `1`
         # through summing to get an array with known dimensionality and the
         # mapping of the original values.
-        matches = (ar[:, None] == out["values"][None, :]).astype(np.intp)
+        values = out["values"][None, :]
+        matches = (ar[:, None] == values) | ((ar != ar)[:, None] & (values != values))
+        matches = matches.astype(np.intp)
         inverse = (matches * out["inverse"]).sum(axis=1)
         if NUMPY_GE_200:
             inverse = inverse.reshape(orig_shape)
